@@ -27,7 +27,7 @@ func TestCall(t *testing.T) { callFacet.Run(t) }
 
 var histFacet = harness.Register(&harness.Facet[histCase]{
 	Name:  "hist",
-	Rule:  "rapid: one bridged container (*struct / struct by value with json tags, embedded struct, unexported field carrying a sentinel, json:\"-\" field, pointer/interface/slice/map fields; map[string]T for eight T, map[int|int8|uint16]T, named map with a method; []T by value for ten T incl. a named slice with a method; *[n]T; [n]T by value; two same-named distinct struct types; slice/array/map fields of a *struct reached through the struct on every step) with generated initial contents and a history of 1-12 steps drawn as one value: script set / defineProperty / delete / get / length= / push / pop / shift / splice / method call with keys from pools (field names, json tags, promoted and unexported names, canonical and non-canonical integer keys, indices inside, at and beyond the length, non-index names) and values aimed at the element type (boundaries, fractions, NaN, wrong kinds), interleaved with Go-side writes and deletes on the same object. After every step the script's view (Object.keys, for-in, every value, length, reads by tag/promoted/unexported/unknown name) is compared with the Go contents read by reflection. non-trivial = the history contains a write needing a checked conversion, a structural rejection, or a step that follows a Go-side mutation; distinct by the JSON of the case",
+	Rule:  "rapid: one bridged container (*struct / struct by value with json tags, embedded struct, unexported field carrying a sentinel, json:\"-\" field, pointer/interface/slice/map fields; map[string]T for eight T, map[int|int8|uint16]T, named map with a method; []T by value for ten T incl. a named slice with a method; *[n]T; [n]T by value; two same-named distinct struct types; slice/array/map fields of a *struct reached through the struct on every step) with generated initial contents and a history of 1-12 steps drawn as one value: script set / defineProperty / delete / get / length= / push / pop / shift / splice / method call / passing a struct-typed field to a Go func(*T) that mutates through and keeps the pointer / assigning such a field to a pointer field with keys from pools (field names, json tags, promoted and unexported names, canonical and non-canonical integer keys, indices inside, at and beyond the length, non-index names) and values aimed at the element type (boundaries, fractions, NaN, wrong kinds), interleaved with Go-side writes and deletes on the same object (also through the kept pointer). After every step the script's view (Object.keys, for-in, every value, length, reads by tag/promoted/unexported/unknown name) is compared with the Go contents read by reflection. non-trivial = the history contains a write needing a checked conversion, a structural rejection, or a step that follows a Go-side mutation; distinct by the JSON of the case",
 	Quick: 2500, Thorough: 11000,
 	Gen:   genHist,
 	Check: checkHist,
